@@ -65,7 +65,8 @@ Definition w_good : image :=
 (* the same without the symbolic link: inside the proved domain Dp (DomainP.v) *)
 Definition w_good_p : image :=
   img [ [dir "etc" 493; reg "etc/passwd" 420 "root"; dir "usr" 493; dir "usr/lib" 493; reg "usr/lib/a.so" 493 "v1";
-         dir "tmp" 1023; reg "tmp/x" 384 "scratch"; dir "opt" 493; dir "opt/app" 493; reg "opt/app/bin" 493 "b"];
+         dir "tmp" 1023; reg "tmp/x" 384 "scratch"; dir "opt" 493; dir "opt/app" 493; reg "opt/app/bin" 493 "b";
+         dir "srv" 493; dir "srv/d" 493; reg "srv/d/a" 420 "a"; reg "srv/d/b" 420 "b"];
         [dir "usr" 493; dir "usr/lib" 493; reg "./usr/lib/a.so" 2541 "v2"; dir "tmp" 1023; wh "tmp/.wh.x"; reg "tmp/y" 420 "y";
-         wh ".wh.opt"];
+         wh ".wh.opt"; dir "srv" 493; dir "srv/d" 493; wh "srv/d/.wh.a"];
         [dir "etc" 448; wh "etc/.wh.passwd"; reg "etc/shadow" 384 "s"; dir "tmp" 1023; reg "./tmp/y" 420 "y2"; reg "usr" 420 "now a file"] ].
